@@ -347,6 +347,42 @@ func runBusStress(rng *rand.Rand, idx int, tier string) Case {
 		}
 		eb.Clear[stQ](bus)
 	}
+	// ---- phase 6 (own bus): ClearAll races with an Unsubscribe that is scanning a long handler list of the same type;
+	// once both have returned the registry must be empty and stay empty (a map swapped under the scan would bring the
+	// cleared handlers back) ----
+	type stC struct{ R int }
+	clearRounds, fillers := 6, 1500
+	if tier == "thorough" {
+		clearRounds = 25
+	}
+	resurrected := 0
+	for r := 0; r < clearRounds; r++ {
+		cb := eb.New()
+		var later atomic.Int32
+		for k := 0; k < fillers; k++ {
+			eb.Subscribe(cb, func(stC) { later.Add(1) })
+		}
+		target := func(stC) { later.Add(1) }
+		eb.Subscribe(cb, target)
+		ready := make(chan struct{})
+		var cw2 sync.WaitGroup
+		cw2.Add(2)
+		go func() {
+			defer cw2.Done()
+			close(ready)
+			guard(func() { eb.Unsubscribe[stC](cb, target) })
+		}()
+		go func() {
+			defer cw2.Done()
+			<-ready
+			guard(func() { eb.ClearAll(cb) })
+		}()
+		cw2.Wait()
+		guard(func() { eb.Publish(cb, stC{r}) })
+		if eb.HandlerCount[stC](cb) != 0 || eb.HasHandlers[stC](cb) || later.Load() != 0 {
+			resurrected++
+		}
+	}
 	// ---- observations ----
 	misorder := 0
 	var stT []T
@@ -380,7 +416,7 @@ func runBusStress(rng *rand.Rand, idx int, tier string) Case {
 	sort.Strings(tags)
 	return Case{Input: Tup(Nat(nst), Nat(nonce), Nat(G*M), B(withStore)),
 		Obs: C("Build_stobs", L(stT...), L(onceT...), Nat(eb.HandlerCount[stE](bus)), Nat(records), Nat(disorder), Nat(int(escaped.Load())),
-			Nat(onceLost), Nat(onceStale), Nat(deadSeen), Nat(probeBad), Nat(freshOverlap), Nat(misorder), Nat(burstBad)),
+			Nat(onceLost), Nat(onceStale), Nat(deadSeen), Nat(probeBad), Nat(freshOverlap), Nat(misorder), Nat(burstBad), Nat(resurrected)),
 		Tags:       tags,
 		Nontrivial: true}
 }
